@@ -1,5 +1,43 @@
 import MgpuModel.Util
-/-! C03 (scalar part) — stub; replaced by the scalar-ALU module. -/
+import MgpuModel.C03S_Types
+import MgpuModel.C03S_Spec
+import MgpuModel.C03S_Machine
+import MgpuModel.Gen.AluScalar
+/-! # C03 (scalar part) — driver entry
+
+`c03 s <arch> <hexbytes> scc= vcc= exec= pc= m0= s=<idx>:<hex>,…`
+  arch = `gcn3` | `cdna3`          → post-state delta prescribed by the ISA specification
+  arch = `gen.gcn3` | `gen.cdna3`  → post-state delta of the handler TRANSLATED from the Go source
+                                     (translator validation; must equal the real handler) -/
 namespace C03S
-def handle (_line : String) : String := "bad"
+
+def specSem (d : DInst) : Option Sem :=
+  (Spec.find d.fmt d.op).map fun o => ⟨o.dstW, o.src0W, o.src1W, o.f⟩
+
+/-- the handler translated from the Go source; operand widths as in the specification table (they
+    are the decoder's, property C04).  A hand-modelled handler (`Gen.<arch>.handModelled`) has no
+    translated definition: its model is the specification function itself. -/
+def genSem (arch : String) (d : DInst) : Option Sem := do
+  let o ← Spec.find d.fmt d.op
+  let (disp, tab) := if arch == "gen.gcn3" then (Gen.gcn3.dispatch, Gen.gcn3.table) else (Gen.cdna3.dispatch, Gen.cdna3.table)
+  match disp d.fmt d.op with
+  | some f => some ⟨o.dstW, o.src0W, o.src1W, f⟩
+  | none => if tab.any (fun r => r.1 == d.fmt && r.2.1 == d.op) then some ⟨o.dstW, o.src0W, o.src1W, o.f⟩ else none
+
+def handle (line : String) : String :=
+  match Util.words line with
+  | _ :: _ :: arch :: hex :: rest =>
+    match parseInst hex, parseState rest with
+    | some d, some st =>
+      let sem := if arch == "gcn3" || arch == "cdna3" then specSem d
+                 else if arch == "gen.gcn3" || arch == "gen.cdna3" then genSem arch d else none
+      match sem with
+      | none => "nospec"
+      | some sem =>
+        match execute sem d st with
+        | some st' => deltaStr st st'
+        | none => "unsupported-operand"
+    | _, _ => "bad"
+  | _ => "bad"
+
 end C03S
